@@ -71,7 +71,7 @@
 (* step Pick computes both parses, the route the client takes and the      *)
 (* request it sends.  Invariants: InvalidNeverSent, ServerClean,           *)
 (* SockIsParam, ParsersAgree (on canonical shapes), CCBLastHash,           *)
-(* HostPortLastColon, RequestShape.                                        *)
+(* HostPortLastColon, RequestShape, CtxHonoured.                           *)
 (*                                                                         *)
 (* Mode "hint": annotateSharedPortReset as a decision table over address   *)
 (* shape x error class: HintOnlyForResetOnSharedPort, NeverHides.          *)
@@ -82,6 +82,7 @@
 (*             "CloseNoWait" "UnlinkAdopted" "KeepSocketFile"              *)
 (*   route:    "SockSuffixMatch" "KeepBrackets" "NoValidate"               *)
 (*             "SplitFirstHash" "FirstColonPort" "TwoFrames"               *)
+(*             "IgnoreCtxOnSend"                                           *)
 (*   hint:     "HintAlways" "HintAnyAddr" "HintHides"                      *)
 (***************************************************************************)
 EXTENDS Integers, Sequences, FiniteSets, TLC
@@ -452,7 +453,7 @@ ParamShapes3 == [br : {"both"}, host : {"v4"}, sp : {FALSE}, sep : {"&", ";"}, p
 RouteShapesQuick == FrameShapes \cup ParamShapes2
 RouteShapesThorough == FrameShapes \cup ParamShapes2 \cup ParamShapes3
 SmallShapes == [br : {"none", "both"}, host : {"v4", "v6"}, sp : {FALSE}, sep : {"&"},
-                ps : {<<>>, <<"sock">>, <<"sockBad">>, <<"alias", "sock">>, <<"ccb1">>, <<"sockEmpty">>}]
+                ps : {<<>>, <<"sock">>, <<"sockBad">>, <<"alias", "sock">>, <<"aliasEscAmp">>, <<"sockEmpty">>}]
 
 \* what HTCondor itself generates: '&' separators, no escapes in or around sock, one sock at most
 CanonParams == {"sock", "alias", "noUDP", "addrs", "ccb1", "ccbNested", "ccbNoHash"}
@@ -473,6 +474,18 @@ Via(ht) == IF ~ht.sp THEN "direct"
 Request(id) == [frames |-> IF "TwoFrames" \in Bug THEN 2 ELSE 1,
                 fields |-> <<"cmd75", "id", "name", "deadline", "zero">>, id |-> id]
 
+\* "Send the deadline in seconds ... <= 0: -1 (No timeout)".  Where the text is silent (a
+\* deadline that is not a whole number of seconds) rounding either way is admitted, and a
+\* positive deadline below one second may also be sent as "no timeout".
+DeadlineClasses == {"zero", "sub", "sec", "frac"}
+DeadlineField(c) == CASE c = "zero" -> {"none"}
+                      [] c = "sec" -> {"exact"}
+                      [] c = "frac" -> {"floor", "ceil"}
+                      [] c = "sub" -> {"none", "floor", "ceil"}
+\* "clientName is used for debugging purposes"; an empty name becomes the built-in one; CEDAR
+\* strings end at the first NUL
+NameField == [default |-> "builtin", plain |-> "same", nul |-> "upToNul"]
+
 RouteRow(sh) ==
   LET a == Render(sh)
       ht == ParseHT(a)
@@ -482,12 +495,30 @@ RouteRow(sh) ==
       valid |-> ValidID(ht.id), via |-> via,
       ccb |-> (~sin.err /\ sin.ccb # <<>>),
       canon |-> Canonical(sh),
-      req |-> IF via = "sp" THEN Request(ht.id) ELSE Request(<<>>)]
+      req |-> IF via = "sp" THEN Request(ht.id) ELSE Request(<<>>),
+      dl |-> [c \in DeadlineClasses |-> DeadlineField(c)],
+      nm |-> NameField]
 
 Pick(sh) ==
   /\ Mode = "route" /\ row = NoRow
   /\ row' = RouteRow(sh)
   /\ UNCHANGED <<origin, closing, path, dc, acc, cl>>
+
+\* "ctx: context for cancellation and timeouts ... deadline: connection timeout".  The context
+\* ends before the call ("before"), while the request is being written to a daemon that does
+\* not read ("send"), or while the TCP connection is being made ("dial").  The call returns an
+\* error and leaves no connection behind; it returns when the context ends -- for the dial
+\* phase the text also admits the connection timeout.
+CtxPhases == {"before", "send", "dial"}
+CtxRow(ph) == [kind |-> "ctx", phase |-> ph, result |-> "error", closed |-> TRUE,
+               bound |-> CASE ph = "dial" -> {"ctx", "deadline"}
+                           [] ph = "send" /\ "IgnoreCtxOnSend" \in Bug -> {"never"}
+                           [] OTHER -> {"ctx"}]
+PickCtx(ph) ==
+  /\ Mode = "route" /\ row = NoRow
+  /\ row' = CtxRow(ph)
+  /\ UNCHANGED <<origin, closing, path, dc, acc, cl>>
+CtxHonoured == row.kind = "ctx" => (row.result = "error" /\ row.closed /\ "never" \notin row.bound)
 
 IsRoute == row.kind = "route"
 InvalidNeverSent == IsRoute => (row.via = "sp" => ValidID(row.req.id))
@@ -520,13 +551,15 @@ RequestShape == IsRoute => row.req.frames = 1
 \* "a TCP reset, a broken pipe, or an EOF / unexpected EOF while a read was still expecting data"
 ResetClass == {"eof", "ueof", "rst", "epipe", "netclosed"}
 AllErrClasses == ResetClass \cup {"protocol", "timeout"}
+\* the classes the harness can provoke through the public API
+HintErrClasses == AllErrClasses \ {"netclosed"}
 
 HintRow(sh, e) ==
   LET ht == ParseHT(Render(sh))
       hinted == CASE "HintAlways" \in Bug -> ht.sp
                   [] "HintAnyAddr" \in Bug -> e \in ResetClass
                   [] OTHER -> ht.sp /\ e \in ResetClass
-  IN [kind |-> "hint", shape |-> sh, addr |-> Render(sh), sp |-> ht.sp, err |-> e,
+  IN [kind |-> "hint", shape |-> sh, addr |-> Render(sh), ht |-> ht, sp |-> ht.sp, err |-> e,
       via |-> Via(ht), hint |-> hinted,
       \* the chain errors.Is / Unwrap can walk
       chain |-> IF hinted /\ "HintHides" \in Bug THEN <<"hint">>
@@ -545,10 +578,16 @@ NeverHides == IsHint => row.chain[Len(row.chain)] = row.err
 -----------------------------------------------------------------------------
 Init == LInit
 
+\* (the guard stands outside the quantifiers: a picked row ends the behaviour)
+RowStep ==
+  /\ row = NoRow /\ Mode \in {"route", "hint"}
+  /\ \/ \E sh \in Shapes : Pick(sh)
+     \/ \E ph \in CtxPhases : PickCtx(ph)
+     \/ \E sh \in Shapes, e \in ErrClasses : PickHint(sh, e)
+
 Next ==
   \/ ListenerStep \/ EnvStep
-  \/ \E sh \in Shapes : Pick(sh)
-  \/ \E sh \in Shapes, e \in ErrClasses : PickHint(sh, e)
+  \/ RowStep
 
 Spec == Init /\ [][Next]_vars
 
